@@ -283,7 +283,7 @@ Proof.
               Inv (h_cache h') /\ h_threads h' = [] /\ store_sub h').
   { clear ops. induction ops as [|o ops IH]; intros h F I T SS; cbn [fold_left]; [auto|].
     inversion F as [|? ? W F']; subst.
-    destruct o as [r| | | | | | |]; cbn in W; try contradiction.
+    destruct o as [r| | | | | | | |]; cbn in W; try contradiction.
     - assert (TG : th_get (h_threads h) (-1) = None) by (rewrite T; reflexivity).
       rewrite hb_step_fst. apply IH; auto.
       + rewrite (heartbeat_seq _ _ I W TG). apply (seq_result_keeps _ _ I W).
